@@ -1093,6 +1093,29 @@ async fn ws_exact_channel(
     Ok(())
 }
 
+async fn exact_echo(upgraded: dropshot::WebsocketConnection) -> dropshot::WebsocketChannelResult {
+    use tokio::io::{AsyncReadExt, AsyncWriteExt};
+    let mut raw = upgraded.into_inner();
+    let mut msg = [0u8; 12];
+    raw.read_exact(&mut msg).await?;
+    raw.write_all(&msg).await?;
+    raw.flush().await?;
+    raw.shutdown().await?;
+    Ok(())
+}
+
+/// a channel that is served but not published in the document
+#[dropshot::channel { protocol = WEBSOCKETS, path = "/zz-ws-hidden", unpublished = true }]
+async fn zz_ws_hidden(_rqctx: RequestContext<()>, upgraded: dropshot::WebsocketConnection) -> dropshot::WebsocketChannelResult {
+    exact_echo(upgraded).await
+}
+
+/// a channel that is published and marked deprecated
+#[dropshot::channel { protocol = WEBSOCKETS, path = "/zz-ws-old", deprecated = true }]
+async fn zz_ws_old(_rqctx: RequestContext<()>, upgraded: dropshot::WebsocketConnection) -> dropshot::WebsocketChannelResult {
+    exact_echo(upgraded).await
+}
+
 /// {"op":"ws_stream","segments":[3,5,4]}: after a valid handshake, 12 bytes are sent in the given TCP segments; the handler must echo them
 fn op_ws_stream(case: &Value) -> Value {
     use std::io::{Read, Write};
@@ -1101,7 +1124,10 @@ fn op_ws_stream(case: &Value) -> Value {
     let rt = tokio::runtime::Builder::new_multi_thread().worker_threads(2).enable_all().build().unwrap();
     rt.block_on(async move {
         let mut api = ApiDescription::new();
-        api.register(ws_exact_channel).unwrap();
+        // "hidden": the only channel of the API is an unpublished one
+        let hidden = case["hidden"].as_bool().unwrap_or(false);
+        if hidden { api.register(zz_ws_hidden).unwrap(); } else { api.register(ws_exact_channel).unwrap(); }
+        let target = if hidden { "/zz-ws-hidden" } else { "/ws-exact" };
         let log = slog::Logger::root(slog::Discard, slog::o!());
         let server = dropshot::ServerBuilder::new(api, (), log).start().expect("server");
         let addr = server.local_addr();
@@ -1109,7 +1135,7 @@ fn op_ws_stream(case: &Value) -> Value {
             let mut s = std::net::TcpStream::connect(addr).unwrap();
             s.set_nodelay(true).unwrap();
             s.set_read_timeout(Some(std::time::Duration::from_secs(5))).unwrap();
-            s.write_all(b"GET /ws-exact HTTP/1.1\r\nHost: replay\r\nConnection: Upgrade\r\nUpgrade: websocket\r\nSec-WebSocket-Version: 13\r\nSec-WebSocket-Key: dGhlIHNhbXBsZSBub25jZQ==\r\n\r\n").unwrap();
+            s.write_all(format!("GET {} HTTP/1.1\r\nHost: replay\r\nConnection: Upgrade\r\nUpgrade: websocket\r\nSec-WebSocket-Version: 13\r\nSec-WebSocket-Key: dGhlIHNhbXBsZSBub25jZQ==\r\n\r\n", target).as_bytes()).unwrap();
             let mut head = vec![];
             let mut one = [0u8; 1];
             while !head.ends_with(b"\r\n\r\n") {
@@ -1336,6 +1362,8 @@ fn op_openapi(case: &Value) -> Value {
                 if let Err(e) = api.register(e) { return json!({"error": format!("register: {:?}", e)}); }
             }
             api.register(doc_endpoint).unwrap();
+            api.register(zz_ws_hidden).unwrap();
+            api.register(zz_ws_old).unwrap();
             let mut a = vec![];
             api.openapi("t", v.clone()).write(&mut a).unwrap();
             let mut b = vec![];
@@ -1346,10 +1374,12 @@ fn op_openapi(case: &Value) -> Value {
         if docs.iter().any(|d| *d != docs[0]) { same_across_orders = false; }
         let doc: Value = serde_json::from_slice(&docs[0]).unwrap();
         let mut ops = vec![];
+        let mut deprecated_ops = vec![];
         if let Some(paths) = doc["paths"].as_object() {
             for (p, item) in paths {
                 for (m, op) in item.as_object().unwrap() {
                     ops.push(json!([p, m.to_uppercase(), op["operationId"]]));
+                    if op["deprecated"] == true { deprecated_ops.push(op["operationId"].clone()); }
                 }
             }
         }
@@ -1368,7 +1398,7 @@ fn op_openapi(case: &Value) -> Value {
         }
         walk(&doc, &doc, &mut refs_resolve);
         shared_type = doc["components"]["schemas"]["SharedMode"].clone();
-        per_version.push(json!({"version": v.to_string(), "operations": ops, "tags": doc["tags"].clone()}));
+        per_version.push(json!({"version": v.to_string(), "operations": ops, "deprecated": deprecated_ops, "tags": doc["tags"].clone()}));
     }
     json!({"per_version": per_version, "same_across_orders": same_across_orders, "same_twice": same_twice, "refs_resolve": refs_resolve,
            "shared_type": shared_type})
